@@ -125,3 +125,46 @@ def trace(stmts: List[ast.stmt], test_eval) -> Optional[List[ast.stmt]]:
     return False
   r = go(stmts)
   return None if r is None else out
+
+
+def value_of(e, binding: Dict[str, object], tables: Dict[str, ast.AST], depth: int = 0):
+  """Member name denoted by the result expression `e` of a dispatch function under `binding`: follows
+  `TABLE[key]`, `TABLE.get(key, default)` (TABLE a module-level dict literal), conditional expressions and
+  bool(<bound name>).  Returns a member name / constant, or UNKNOWN."""
+  if depth > 6 or not isinstance(e, ast.AST):
+    return UNKNOWN
+  k = unparse(e, 0)
+  if k in binding:
+    return binding[k]
+  if isinstance(e, ast.Constant):
+    return e.value
+  if isinstance(e, ast.Call) and isinstance(e.func, ast.Name) and e.func.id == 'bool' and len(e.args) == 1:
+    v = value_of(e.args[0], binding, tables, depth + 1)
+    return UNKNOWN if v is UNKNOWN else bool(v)
+  if isinstance(e, ast.IfExp):
+    t = eval_test(e.test, binding)
+    if t is None:
+      return UNKNOWN
+    return value_of(e.body if t else e.orelse, binding, tables, depth + 1)
+  table = key = default = None
+  has_default = False
+  if isinstance(e, ast.Subscript):
+    table, key = e.value, e.slice
+  elif isinstance(e, ast.Call) and isinstance(e.func, ast.Attribute) and e.func.attr == 'get' and 1 <= len(e.args) <= 2:
+    table, key = e.func.value, e.args[0]
+    has_default = True
+    default = e.args[1] if len(e.args) == 2 else ast.Constant(value=None)
+  if table is not None:
+    tname = dotted(table)
+    t = tables.get(tname or '')
+    if isinstance(t, ast.Dict):
+      kv = value_of(key, binding, tables, depth + 1)
+      if kv is UNKNOWN:
+        return UNKNOWN
+      for dk, dv in zip(t.keys, t.values):
+        if dk is not None and _member(dk) == kv and _member(dk) is not UNKNOWN:
+          return value_of(dv, binding, tables, depth + 1)
+      return value_of(default, binding, tables, depth + 1) if has_default else 'raise'
+    return UNKNOWN
+  m = _member(e)
+  return m
